@@ -548,7 +548,7 @@ class The(ResultQuantifier[T]):
         # decided anew by every evaluation (a nested `the` is evaluated once per binding of the enclosing query).
         self._is_false_ = result is None
         if self._is_false_:
-            if self._yield_when_false_:
+            if yield_when_false:
                 result = sources
             else:
                 raise NoSolutionFound(self._child_)
@@ -1001,7 +1001,7 @@ class Variable(CanBehaveLikeAVariable[T]):
             if self._kwargs_expression_ and not self._evaluating_kwargs_expression_:
                 # because when kwargs expression exists,
                 # it will constrain the domain further to fit the kwargs provided.
-                yield from self._evaluate_kwargs_expression_(sources)
+                yield from self._evaluate_kwargs_expression_(sources, yield_when_false)
             else:
                 # If no kwargs expression, or is currently being evaluated then yield from the domain directly,
                 # if ht kwargs is being evaluated, it will want to take the domain from here and constrain it further.
@@ -1011,15 +1011,19 @@ class Variable(CanBehaveLikeAVariable[T]):
             yield from self._evaluate__(sources, yield_when_false=yield_when_false)
         elif self._child_vars_:
             for kwargs in self._generate_combinations_for_child_vars_values_(sources):
-                yield from self._yield_from_cache_or_instantiate_new_values_(sources, kwargs)
+                for v in self._yield_from_cache_or_instantiate_new_values_(sources, kwargs):
+                    # the request of THIS evaluation, not the attribute: the same predicate object can be evaluated again
+                    # (as an operand of another or_) while this generator is suspended, and that overwrites the attribute.
+                    if yield_when_false or not self._is_false_:
+                        yield v
 
-    def _evaluate_kwargs_expression_(self, sources: Optional[Dict[int, HashedValue]] = None):
+    def _evaluate_kwargs_expression_(self, sources: Optional[Dict[int, HashedValue]] = None, yield_when_false: bool = False):
         self._evaluating_kwargs_expression_ = True
         try:
-            for v in self._kwargs_expression_._evaluate__(sources, yield_when_false=self._yield_when_false_):
+            for v in self._kwargs_expression_._evaluate__(sources, yield_when_false=yield_when_false):
                 if self is self._conditions_root_ or isinstance(self._parent_, LogicalOperator):
                     self._is_false_ = self._kwargs_expression_._is_false_
-                    if not self._is_false_ or self._yield_when_false_:
+                    if not self._is_false_ or yield_when_false:
                         yield v
                 else:
                     yield v
@@ -1180,19 +1184,20 @@ class Variable(CanBehaveLikeAVariable[T]):
         result_truthy = bool(function_output) if self._predicate_type_ else True
         self._is_false_ = result_truthy if self._invert_ else not result_truthy
 
-        if self._yield_when_false_ or not self._is_false_:
-            hv = function_output if isinstance(function_output, HashedValue) else HashedValue(function_output)
+        # the row is handed on with its truth; whether a false row is wanted is decided by the evaluation that asked
+        # (Variable._evaluate__), from its own argument.
+        hv = function_output if isinstance(function_output, HashedValue) else HashedValue(function_output)
 
-            if not kwargs:
-                yield {self._id_: hv}
-                return
+        if not kwargs:
+            yield {self._id_: hv}
+            return
 
-            # kwargs is a mapping from name -> {var_id: HashedValue};
-            # we need a single dict {var_id: HashedValue
-            values = {self._id_: hv}
-            for d in kwargs.values():
-                values.update(d)
-            yield values
+        # kwargs is a mapping from name -> {var_id: HashedValue};
+        # we need a single dict {var_id: HashedValue
+        values = {self._id_: hv}
+        for d in kwargs.values():
+            values.update(d)
+        yield values
 
     @property
     def _name_(self):
@@ -1931,7 +1936,7 @@ class Union(OR):
                 self.right_evaluated = False
                 if self.left._is_false_:
                     if yield_when_false:
-                        yield from self.evaluate_right(output)
+                        yield from self.evaluate_right(output, yield_when_false)
                     continue
                 if self._is_duplicate_output_(output):
                     continue
@@ -1940,15 +1945,16 @@ class Union(OR):
         finally:
             self.left._eval_parent_ = left_prev
         self.left_evaluated = False
-        yield from self.evaluate_right(sources)
+        yield from self.evaluate_right(sources, yield_when_false)
 
-    def evaluate_right(self, sources: Optional[Dict[int, HashedValue]]) -> Iterable[Dict[int, HashedValue]]:
-        right_values = self.right._evaluate__(sources, yield_when_false=self._yield_when_false_)
+    def evaluate_right(self, sources: Optional[Dict[int, HashedValue]], yield_when_false: bool = False) \
+            -> Iterable[Dict[int, HashedValue]]:
+        right_values = self.right._evaluate__(sources, yield_when_false=yield_when_false)
         # For the found left value, find all right values,
         # and yield the (left, right) results found.
         for right_value in right_values:
             sources.update(right_value)
-            if self._yield_when_false_ and self.left_evaluated:
+            if yield_when_false and self.left_evaluated:
                 self._is_false_ = self.left._is_false_ and self.right._is_false_
             else:
                 self._is_false_ = False
